@@ -20,4 +20,9 @@ PROPS = {
     'C18': {'rule': 'one event per body / heartbeat / protocol-header round trip; distinct = distinct (payload, channel)'},
     'C04': {'rule': 'one event per encoder call (frame.marshal of all five kinds, Frame.marshal(), Properties.marshal(), '
                     'by_type, encode_table_value); every byte compared with the TLA+ reference encoder'},
+    'C14': {'rule': 'exhaustive static trace: one event per class reachable through INDEX_MAPPING (64), one for '
+                    'Basic.Properties, one per AMQP class, one for the key set; compared field by field with Catalog.tla',
+            'exhaustive': True, 'shards': lambda t: 1},
+    'C17': {'rule': 'exhaustive static trace: one event per CLASS_MAPPING entry (18), key set, constants',
+            'exhaustive': True, 'shards': lambda t: 1},
 }
